@@ -1830,7 +1830,7 @@ def san_search_counted(ctx, *a, **k):
 
 def run(ctx):
     part_model(ctx, ctx.scale(40, 400))
-    san_part(ctx, ctx.scale(1000, 36000), ctx.scale(26, 800))
+    san_part(ctx, ctx.scale(2600, 40000), ctx.scale(30, 800))
 
 
 def search(ctx):
